@@ -55,6 +55,12 @@ Lib == {LibP("lib1", <<ML, InA, R1(f, <<A>>)>>, DomS) : f \in {"abs", "sign"}}
   \cup {LibP("clamp", <<ML, InA, R1(f, <<A, Num(lh[1]), Num(lh[2])>>)>>, DomS) : f \in {"clamp", "between"}, lh \in {<<0, 10>>, <<-5, 5>>, <<3, 3>>, <<-65537, 65536>>}}
   \cup {LibP("lerp", <<ML, InA, R1("lerp", <<Num(ab[1]), Num(ab[2]), A>>)>>, DomT) : ab \in {<<0, 100>>, <<10, 20>>, <<-50, 50>>, <<100, 0>>}}
   \cup {LibP("bits", <<ML, InA, R1(f, <<A, Num(pos)>>)>>, DomS) : f \in {"get_bit", "set_bit", "clear_bit", "toggle_bit"}, pos \in {0, 1, 5, 30}}
+  \cup {LibP("libnames", <<ML, SInt("x", Num(3)), SInt("value", Num(6)), SInt("mask", Num(255)), SInt("t", Num(60)), SInt("q", Num(4)), SInt("r", Num(9)), InA, SLet("Signal", "o", CallE(f, <<A>>))>>, DomS) : f \in {"abs", "sign"}}
+  \cup {LibP("libnames", <<ML, SInt("x", Num(3)), SInt("low", Num(1)), SInt("high", Num(2)), InA, SLet("Signal", "o", CallE(f, <<A, Num(0), Num(10)>>))>>, DomS) : f \in {"clamp", "between"}}
+  \cup {LibP("libnames", <<ML, SInt("value", Num(6)), SInt("mask", Num(255)), SInt("pos", Num(2)), InA, SLet("Signal", "o", CallE(f, <<A, Num(3)>>))>>, DomS) : f \in {"get_bit", "set_bit", "clear_bit", "toggle_bit"}}
+  \cup {LibP("libnames", <<ML, SInt("t", Num(60)), SInt("a", Num(1)), SInt("b", Num(2)), SIn("s", "signal-A", 5), SLet("Signal", "o", CallE("lerp", <<Num(0), Num(100), Ref("s")>>))>>, DomT)}
+  \cup {LibP("libnames", <<ML, SInt("q", Num(4)), SInt("r", Num(9)), SInt("remainder", Num(1)), SInt("abs_b", Num(5)), SIn("u", "signal-A", 5), SIn("v", "signal-B", 2), SLet("Signal", "o", CallE(f, <<Ref("u"), Ref("v")>>))>>, DomS) :
+          f \in {"min", "max", "div_floor", "mod_positive"}}
   \cup {LibP("libmix", <<ML, InA, InB, SLet("Signal", "m", CallE("max", <<A, B>>)), SLet("Signal", "r", CallE("abs", <<Ref("m")>>))>>, DomS),
         LibP("libmix", <<ML, Imp("math.facto"), InA, R1("abs", <<A>>)>>, DomS)}
 ASSUME PrintT(<<"NPROGS", Cardinality(Graphs), Cardinality(Lib)>>)
